@@ -238,11 +238,36 @@ fn order_key(a: &Value, b: &Value) -> std::cmp::Ordering {
     k(a).partial_cmp(&k(b)).unwrap()
 }
 
-enum T {
-    S(Sort),
-    BS(BatchSort),
-    V(VisualSort),
-    BV(BatchVisualSort),
+use crate::trk::Tracker as T;
+
+/// `voting.job.end` events seen by this process (batch trackers; schedule points of the hook build)
+static JOBS_DONE: std::sync::atomic::AtomicU64 = std::sync::atomic::AtomicU64::new(0);
+
+fn install_job_counter() {
+    similari::verif_hooks::set_callback(Some(std::sync::Arc::new(|site: &'static str, _a: u64, _b: u64| {
+        if site == "voting.job.end" {
+            JOBS_DONE.fetch_add(1, std::sync::atomic::Ordering::SeqCst);
+        }
+    })));
+}
+
+fn wait_jobs(target: u64) {
+    let t0 = std::time::Instant::now();
+    while JOBS_DONE.load(std::sync::atomic::Ordering::SeqCst) < target && t0.elapsed().as_secs() < 20 {
+        std::thread::sleep(std::time::Duration::from_micros(200));
+    }
+}
+
+fn det_of(d: &Value) -> crate::trk::Det {
+    crate::trk::Det { b: crate::gen::boxes::UB::from_lib(&mk_ubox(&d["box"])), custom: d["custom"].as_i64(), feat: d["feature"].as_array().map(|a| a.iter().map(f).collect()), q: of(&d["quality"]) }
+}
+
+fn pairs_of(v: &Value) -> Vec<(usize, f32)> {
+    v.as_array().unwrap().iter().map(|e| (e[0].as_u64().unwrap() as usize, f(&e[1]))).collect()
+}
+
+fn pos_of(v: &Value) -> crate::trk::Pos {
+    if v.is_array() { crate::trk::Pos::IoU(f(&v[1])) } else { crate::trk::Pos::Maha }
 }
 
 fn tracker_section(s: &Value) -> Value {
@@ -250,7 +275,8 @@ fn tracker_section(s: &Value) -> Value {
     let visual = kind.contains("visual");
     let batch = kind.starts_with("batch");
     // documented defaults of the Python constructors
-    let mut tr = if !visual {
+    use crate::trk::{Cfg, Kind, VisCfg};
+    let (mut tr, cfg) = if !visual {
         let a = &s["args"];
         let shards = a["shards"].as_u64().unwrap_or(4) as usize;
         let voting = a["voting_shards"].as_u64().unwrap_or(4) as usize;
@@ -261,42 +287,80 @@ fn tracker_section(s: &Value) -> Value {
         let cons = if a["constraints"].is_null() { None } else { Some(constraints_of(&a["constraints"])) };
         let wp = of(&a["kalman_position_weight"]).unwrap_or(1.0 / 20.0);
         let wv = of(&a["kalman_velocity_weight"]).unwrap_or(1.0 / 160.0);
+        let cfg = Cfg {
+            kind: if batch { Kind::BatchSort } else { Kind::Sort },
+            shards,
+            voting_shards: voting,
+            history: hist,
+            max_idle: idle,
+            pos: if a["method"].is_null() { crate::trk::Pos::Maha } else { pos_of(&a["method"]) },
+            min_conf: minc,
+            constraints: if a["constraints"].is_null() { None } else { Some(pairs_of(&a["constraints"])) },
+            wp,
+            wv,
+            vis: VisCfg::default(),
+        };
         if batch {
-            T::BS(BatchSort::new(shards, voting, hist, idle, method, minc, cons, wp, wv))
+            (T::BS(BatchSort::new(shards, voting, hist, idle, method, minc, cons, wp, wv)), cfg)
         } else {
-            T::S(Sort::new(shards, hist, idle, method, minc, cons, wp, wv))
+            (T::S(Sort::new(shards, hist, idle, method, minc, cons, wp, wv)), cfg)
         }
     } else {
         let mut o = VisualSortOptions::default();
+        // mirror of VisualSortOptions::default() / VisualMetricBuilder::default() for the decision shadow
+        // (only used to find calls whose outcome is legitimately ambiguous)
+        let shards = s["shards"].as_u64().unwrap() as usize;
+        let mut cfg = Cfg {
+            kind: if batch { Kind::BatchVisualSort } else { Kind::VisualSort },
+            shards,
+            voting_shards: s["voting_shards"].as_u64().unwrap_or(1) as usize,
+            history: 10,
+            max_idle: 2,
+            pos: crate::trk::Pos::IoU(0.3),
+            min_conf: 0.1,
+            constraints: None,
+            wp: 1.0 / 20.0,
+            wv: 1.0 / 160.0,
+            vis: VisCfg { cosine: false, threshold: f32::MAX, min_votes: 1, min_track_len: 3, max_obs: 5, q_use: 0.0, q_collect: 0.0, min_area: 0.0, own_use: 0.0, own_collect: 0.0 },
+        };
         for (name, v) in s["opts"].as_object().unwrap() {
             o = match name.as_str() {
-                "max_idle_epochs" => o.max_idle_epochs(v.as_u64().unwrap() as usize),
-                "kept_history_length" => o.kept_history_length(v.as_u64().unwrap() as usize),
-                "visual_min_votes" => o.visual_min_votes(v.as_u64().unwrap() as usize),
-                "visual_metric" => o.visual_metric(if v[0] == "euclidean" { VisualSortMetricType::euclidean(f(&v[1])) } else { VisualSortMetricType::cosine(f(&v[1])) }),
-                "positional_metric" => o.positional_metric(method_of(v)),
-                "visual_max_observations" => o.visual_max_observations(v.as_u64().unwrap() as usize),
-                "visual_minimal_track_length" => o.visual_minimal_track_length(v.as_u64().unwrap() as usize),
-                "visual_minimal_area" => o.visual_minimal_area(f(v)),
-                "visual_minimal_quality_use" => o.visual_minimal_quality_use(f(v)),
-                "visual_minimal_quality_collect" => o.visual_minimal_quality_collect(f(v)),
-                "visual_minimal_own_area_percentage_use" => o.visual_minimal_own_area_percentage_use(f(v)),
-                "visual_minimal_own_area_percentage_collect" => o.visual_minimal_own_area_percentage_collect(f(v)),
-                "positional_min_confidence" => o.positional_min_confidence(f(v)),
-                "kalman_position_weight" => o.kalman_position_weight(f(v)),
-                "kalman_velocity_weight" => o.kalman_velocity_weight(f(v)),
-                "constraints" => o.spatio_temporal_constraints(constraints_of(v)),
+                "max_idle_epochs" => { cfg.max_idle = v.as_u64().unwrap() as usize; o.max_idle_epochs(v.as_u64().unwrap() as usize) }
+                "kept_history_length" => { cfg.history = v.as_u64().unwrap() as usize; o.kept_history_length(v.as_u64().unwrap() as usize) }
+                "visual_min_votes" => { cfg.vis.min_votes = v.as_u64().unwrap() as usize; o.visual_min_votes(v.as_u64().unwrap() as usize) }
+                "visual_metric" => { cfg.vis.cosine = v[0] != "euclidean"; cfg.vis.threshold = f(&v[1]); o.visual_metric(if v[0] == "euclidean" { VisualSortMetricType::euclidean(f(&v[1])) } else { VisualSortMetricType::cosine(f(&v[1])) }) }
+                "positional_metric" => { cfg.pos = pos_of(v); o.positional_metric(method_of(v)) }
+                "visual_max_observations" => { cfg.vis.max_obs = v.as_u64().unwrap() as usize; o.visual_max_observations(v.as_u64().unwrap() as usize) }
+                "visual_minimal_track_length" => { cfg.vis.min_track_len = v.as_u64().unwrap() as usize; o.visual_minimal_track_length(v.as_u64().unwrap() as usize) }
+                "visual_minimal_area" => { cfg.vis.min_area = f(v); o.visual_minimal_area(f(v)) }
+                "visual_minimal_quality_use" => { cfg.vis.q_use = f(v); o.visual_minimal_quality_use(f(v)) }
+                "visual_minimal_quality_collect" => { cfg.vis.q_collect = f(v); o.visual_minimal_quality_collect(f(v)) }
+                "visual_minimal_own_area_percentage_use" => { cfg.vis.own_use = f(v); o.visual_minimal_own_area_percentage_use(f(v)) }
+                "visual_minimal_own_area_percentage_collect" => { cfg.vis.own_collect = f(v); o.visual_minimal_own_area_percentage_collect(f(v)) }
+                "positional_min_confidence" => { cfg.min_conf = f(v); o.positional_min_confidence(f(v)) }
+                "kalman_position_weight" => { cfg.wp = f(v); o.kalman_position_weight(f(v)) }
+                "kalman_velocity_weight" => { cfg.wv = f(v); o.kalman_velocity_weight(f(v)) }
+                "constraints" => { cfg.constraints = Some(pairs_of(v)); o.spatio_temporal_constraints(constraints_of(v)) }
                 other => panic!("unknown option {}", other),
             };
         }
-        let shards = s["shards"].as_u64().unwrap() as usize;
         if batch {
-            T::BV(BatchVisualSort::new(shards, s["voting_shards"].as_u64().unwrap() as usize, &o))
+            (T::BV(BatchVisualSort::new(shards, s["voting_shards"].as_u64().unwrap() as usize, &o)), cfg)
         } else {
-            T::V(VisualSort::new(shards, &o))
+            (T::V(VisualSort::new(shards, &o)), cfg)
         }
     };
+    // A call whose decision margin (f64 shadow of the call, props/shadow.rs) is below 1e-4 may be
+    // decided either way by the library itself (ties are broken by hash order of random candidate
+    // ids): the trace ends there with a marker and the comparison of this section is cut.
+    let ambiguous = |tr: &T, scene: u64, dets: &[Value]| -> bool {
+        let d: Vec<crate::trk::Det> = dets.iter().map(det_of).collect();
+        let views = tr.views(cfg.shards);
+        let epoch = tr.epoch(scene) + 1;
+        crate::props::trkmon::call_margin(&cfg, &views, scene, epoch, &d) < crate::props::trkmon::MARGIN
+    };
     let mut out = vec![];
+    let mut jobs_target = 0u64;
     for op in s["ops"].as_array().unwrap() {
         let scene = op["scene"].as_u64().unwrap_or(0);
         match op["op"].as_str().unwrap() {
@@ -305,6 +369,10 @@ fn tracker_section(s: &Value) -> Value {
                 if dets.is_empty() && batch {
                     out.push(json!([]));
                     continue;
+                }
+                if ambiguous(&tr, scene, dets) {
+                    out.push(json!({"ambiguous-call": true}));
+                    break;
                 }
                 let feats: Vec<Option<Vec<f32>>> = dets.iter().map(|d| d["feature"].as_array().map(|a| a.iter().map(f).collect())).collect();
                 let traces = |ts: &[SortTrack]| Value::Array(ts.iter().map(track_trace).collect());
@@ -342,6 +410,10 @@ fn tracker_section(s: &Value) -> Value {
             "predict_multi" => {
                 let traces = |ts: &[SortTrack]| Value::Array(ts.iter().map(track_trace).collect());
                 let parts = op["parts"].as_array().unwrap();
+                if parts.iter().any(|p| ambiguous(&tr, p["scene"].as_u64().unwrap(), p["dets"].as_array().unwrap())) {
+                    out.push(json!({"ambiguous-call": true}));
+                    break;
+                }
                 let mut got: Vec<(u64, Vec<SortTrack>)> = match &mut tr {
                     T::BS(t) => {
                         let (mut req, res) = PredictionBatchRequest::<(Universal2DBox, Option<i64>)>::new();
@@ -377,8 +449,17 @@ fn tracker_section(s: &Value) -> Value {
                     S(similari::trackers::batch::PredictionBatchResult),
                 }
                 let mut ress = vec![];
+                let mut cut = false;
                 for dets in op["frames"].as_array().unwrap() {
                     let dets = dets.as_array().unwrap();
+                    // the previous frame has been voted (not yet retrieved) before the margin of the
+                    // next one is taken from the store; predict() itself waits for the same moment
+                    wait_jobs(jobs_target);
+                    if ambiguous(&tr, scene, dets) {
+                        cut = true;
+                        break;
+                    }
+                    jobs_target = JOBS_DONE.load(std::sync::atomic::Ordering::SeqCst) + 1;
                     match &mut tr {
                         T::BS(t) => {
                             let (mut req, res) = PredictionBatchRequest::<(Universal2DBox, Option<i64>)>::new();
@@ -404,6 +485,10 @@ fn tracker_section(s: &Value) -> Value {
                     let mut got: Vec<(u64, Vec<SortTrack>)> = (0..res.batch_size()).map(|_| res.get()).collect();
                     got.sort_by_key(|x| x.0);
                     frames_out.push(Value::Array(got.iter().map(|(sc, ts)| json!([sc, traces(ts)])).collect()));
+                }
+                if cut {
+                    out.push(json!({"ambiguous-call": true}));
+                    break;
                 }
                 out.push(Value::Array(frames_out));
             }
@@ -474,6 +559,7 @@ pub fn exec_script(v: &Value) -> Value {
 
 /// `check C18 --child pydriver`: one script per line in, one trace per line out
 pub fn driver_loop() -> i32 {
+    install_job_counter();
     let stdin = std::io::stdin();
     let stdout = std::io::stdout();
     for line in stdin.lock().lines() {
